@@ -232,7 +232,7 @@ Definition step (nick0 : str) (mp uh : bool) (s : srv) (a : action) : srv * list
             | _ => (s', Msg (hostmask u) str_JOIN [join [COMMA] joined] :: bursts s' u mp uh joined)
             end
           else
-            let '(s', vis) := fold_left (join_other n) chans (s, []) in
+            let '(s', vis) := fold_left (join_other (su_nick u)) chans (s, []) in   (* member keys are canonical nick spellings *)
             match vis with
             | [] => (s', [])
             | _ => (s', [Msg (hostmask u) str_JOIN [join [COMMA] vis]])
